@@ -38,6 +38,7 @@ type Program struct {
 	srcMu     sync.Mutex
 	symIDs    map[string]int64
 	AssumedObls []AssumedObl
+	Defines     map[string]*Define
 }
 
 func shortName(s string) string {
